@@ -427,4 +427,151 @@ theorem tokenize_positionals (table : List OptRow) (args : List String) :
       simp [List.append_assoc]
 
 
+/-! ## quoting (C16f) -/
+
+theorem splitU_escaped (q : Bool) (cur rest : List Char) (c : Char)
+    (hc : (isEscC c || isQuoteC c) = true) : splitU q cur ('\\' :: c :: rest) = splitU q (c :: cur) rest := by
+  have hn : (c == 'n') = false := by
+    simp only [isEscC, isQuoteC, Bool.or_eq_true, beq_iff_eq] at hc
+    rcases hc with hc | hc | hc <;> subst hc <;> decide
+  have h3 : (isEscC c || isQuoteC c || isSepC c) = true := by simp [hc]
+  rw [splitU.eq_def]
+  simp [isEscC, hn] 
+  simp [isEscC] at h3 hc
+  intro h1 h2 h4
+  simp [isEscC, h1, h2, h4] at h3
+
+theorem splitU_plain (q : Bool) (cur rest : List Char) (c : Char)
+    (he : isEscC c = false) (hq : isQuoteC c = false) (hs : isSepC c = false) :
+    splitU q cur (c :: rest) = splitU q (c :: cur) rest := by
+  rw [splitU.eq_def]; simp [he, hq, hs]
+
+theorem splitU_sep_in (cur rest : List Char) (c : Char) (he : isEscC c = false) (hs : isSepC c = true) :
+    splitU true cur (c :: rest) = splitU true (c :: cur) rest := by
+  rw [splitU.eq_def]; simp [he, hs]
+
+theorem splitU_escQ (s : List Char) : ∀ (q : Bool) (cur rest : List Char),
+    (q = true ∨ s.any isSepC = false) →
+    splitU q cur (escQ s ++ rest) = splitU q (s.reverse ++ cur) rest := by
+  induction s with
+  | nil => intro q cur rest _; simp [escQ]
+  | cons c r ih =>
+    intro q cur rest h
+    have h' : q = true ∨ r.any isSepC = false := by
+      rcases h with h | h
+      · exact Or.inl h
+      · right; simp only [List.any_cons, Bool.or_eq_false_iff] at h; exact h.2
+    by_cases hc : (isEscC c || isQuoteC c) = true
+    · simp only [escQ, hc, if_true, List.cons_append]
+      rw [splitU_escaped q cur _ c hc, ih q (c :: cur) rest h']
+      simp
+    · have hc' : (isEscC c || isQuoteC c) = false := by simpa using hc
+      simp only [escQ, hc', Bool.false_eq_true, if_false, List.cons_append]
+      have he : isEscC c = false := by simp only [Bool.or_eq_false_iff] at hc'; exact hc'.1
+      have hq : isQuoteC c = false := by simp only [Bool.or_eq_false_iff] at hc'; exact hc'.2
+      by_cases hs : isSepC c = true
+      · rcases h with h | h
+        · subst h
+          rw [splitU_sep_in cur _ c he hs, ih true (c :: cur) rest h']; simp
+        · simp [List.any_cons, hs] at h
+      · have hs' : isSepC c = false := by simpa using hs
+        rw [splitU_plain q cur _ c he hq hs', ih q (c :: cur) rest h']; simp
+
+
+theorem any_escQ_sep (s : List Char) : (escQ s).any isSepC = s.any isSepC := by
+  induction s with
+  | nil => rfl
+  | cons c r ih =>
+    by_cases hc : (isEscC c || isQuoteC c) = true
+    · have : isSepC c = false := by
+        simp only [isEscC, isQuoteC, Bool.or_eq_true, beq_iff_eq] at hc
+        rcases hc with hc | hc | hc <;> subst hc <;> decide
+      simp [escQ, hc, ih, this, isSepC]
+    · have hc' : (isEscC c || isQuoteC c) = false := by simpa using hc
+      simp [escQ, hc', ih]
+
+theorem splitU_quote (q : Bool) (cur rest : List Char) :
+    splitU q cur ('"' :: rest) = splitU (!q) cur rest := by
+  rw [splitU.eq_def]; simp [isEscC, isSepC, isQuoteC]
+
+/-- an escaped value, wrapped in quotes whenever it contains a separator, is read back unchanged -/
+theorem splitU_wrapIf (w : Bool) (s cur rest : List Char) (h : w = true ∨ s.any isSepC = false) :
+    splitU false cur (wrapIf w (escQ s) ++ rest) = splitU false (s.reverse ++ cur) rest := by
+  cases w with
+  | false =>
+    have h' : s.any isSepC = false := by rcases h with h | h; exact absurd h (by decide); exact h
+    simp only [wrapIf, Bool.false_eq_true, if_false]
+    exact splitU_escQ s false cur rest (Or.inr h')
+  | true =>
+    simp only [wrapIf, if_true, List.cons_append, List.append_assoc, List.nil_append]
+    rw [splitU_quote, Bool.not_false, splitU_escQ s true cur _ (Or.inl rfl), splitU_quote]
+    rfl
+
+theorem splitU_plainPrefix (pre : List Char) (hp : ∀ c ∈ pre, isEscC c = false ∧ isQuoteC c = false ∧ isSepC c = false) :
+    ∀ (q : Bool) (cur rest : List Char), splitU q cur (pre ++ rest) = splitU q (pre.reverse ++ cur) rest := by
+  induction pre with
+  | nil => intro q cur rest; rfl
+  | cons c r ih =>
+    intro q cur rest
+    obtain ⟨he, hq, hs⟩ := hp c (by simp)
+    rw [List.cons_append, splitU_plain q cur _ c he hq hs, ih (fun d hd => hp d (by simp [hd]))]
+    simp
+
+theorem splitU_nil (cur : List Char) : splitU false cur [] = some [cur.reverse] := by
+  rw [splitU.eq_def]
+
+theorem splitU_blank (cur rest : List Char) :
+    splitU false cur (' ' :: rest) = (splitU false [] rest).map (cur.reverse :: ·) := by
+  rw [splitU.eq_def]; simp [isEscC, isSepC]
+
+/-- **round trip**: tokens `pre ++ f a`, joined by blanks, are split back into `pre ++ a`, for every
+    encoding `f` of the shape "escape, wrap in quotes if it contains a separator" -/
+theorem splitU_joinWith (pre : List Char) (hp : ∀ c ∈ pre, isEscC c = false ∧ isQuoteC c = false ∧ isSepC c = false)
+    (w : List Char → Bool) (hw : ∀ a, w a = true ∨ a.any isSepC = false) (args : List (List Char))
+    (hne : args ≠ []) :
+    splitU false [] (joinWith pre (fun a => wrapIf (w a) (escQ a)) args) = some (args.map (pre ++ ·)) := by
+  induction args with
+  | nil => exact absurd rfl hne
+  | cons a t ih =>
+    cases t with
+    | nil =>
+      simp only [joinWith]
+      have := splitU_wrapIf (w a) a (pre.reverse ++ []) [] (hw a)
+      rw [splitU_plainPrefix pre hp, ← List.append_nil (wrapIf (w a) (escQ a)), this, splitU_nil]
+      simp
+    | cons b r =>
+      simp only [joinWith, List.append_assoc]
+      rw [splitU_plainPrefix pre hp, splitU_wrapIf (w a) a _ _ (hw a), splitU_blank, ih (by simp)]
+      simp
+
+
+theorem posPrefix_plain : ∀ c ∈ posPrefix, isEscC c = false ∧ isQuoteC c = false ∧ isSepC c = false := by
+  decide
+
+theorem helperArgs_cons_pos (a : List Char) (t : List (List Char)) :
+    helperArgs ((posPrefix ++ a) :: t) = a :: helperArgs t := by
+  simp [helperArgs, posPrefix, dropThroughEq]
+
+theorem helperArgs_positional (pos : List (List Char)) :
+    helperArgs (pos.map (posPrefix ++ ·)) = pos := by
+  induction pos with
+  | nil => rfl
+  | cons a t ih => rw [List.map_cons, helperArgs_cons_pos, ih]
+
+theorem filter_nonempty_prefixed (pos : List (List Char)) :
+    (pos.map (posPrefix ++ ·)).filter (fun t => !t.isEmpty) = pos.map (posPrefix ++ ·) := by
+  induction pos with
+  | nil => rfl
+  | cons a t ih => simp [posPrefix]
+
+theorem any_or_left {α : Type} (l : List α) (f g : α → Bool) (h : l.any f = true) :
+    l.any (fun c => f c || g c) = true := by
+  induction l with
+  | nil => simp at h
+  | cons a t ih =>
+    simp only [List.any_cons, Bool.or_eq_true] at h ⊢
+    rcases h with h | h
+    · exact Or.inl (Or.inl h)
+    · exact Or.inr (ih h)
+
 end PikaVerif.Config
